@@ -116,12 +116,22 @@ class MatrixOperator(LinearOperator):
                     input_shape=other.input_shape,
                     output_shape=self.output_shape,
                     eval_fn=lambda x: self(other(x)),
-                    input_dtype=self.input_dtype,
+                    input_dtype=other.input_dtype,
                 )
 
             raise ValueError(
                 "Cannot compute MatrixOperator-LinearOperator product, "
                 f"{other.output_shape} does not match {self.input_shape}."
+            )
+
+        if isinstance(other, Operator):
+            # non-linear operator: generic composition
+            return Operator.__call__(self, other)
+
+        if other.shape != self.input_shape:
+            raise TypeError(
+                f"Cannot evaluate {type(self)} with input_shape={self.input_shape} "
+                f"on array with shape={other.shape}."
             )
 
         return self._eval(other)
